@@ -40,7 +40,7 @@ def check_c04(prop, tier, seed):
     for p, out, name in jobs:
         so, se = p.communicate(timeout=3000)
         if p.returncode != 0:
-            raise Infra("handler-seq %s failed: %s" % (name, se[-3000:]))
+            run.driver_failed("handler-seq %s failed" % (name), se)
         stats[name] = json.loads(so.strip().splitlines()[-1])
         pl.pending.append(out)
     pl.validate()
@@ -127,7 +127,7 @@ def check_c05(prop, tier, seed):
         p, n, k, out, readers, rkind = item
         so, se = p.communicate(timeout=3000)
         if p.returncode != 0:
-            raise Infra("chunk-conc %s %s failed: %s" % (n, k, se[-2000:]))
+            run.driver_failed("chunk-conc %s %s failed" % (n, k), se)
         st = json.loads(so.strip().splitlines()[-1])
         events = [json.loads(x) for x in open(out)]
         res = run.tlc("ChunkedTrace", ch_cfg(n, k, readers, trace=os.path.basename(out), rkind=rkind), workers=1, files=[out], timeout=3000)
